@@ -12,6 +12,7 @@
   and unique).
 -/
 import DtnVerif.Lemmas.BundleRfc
+import DtnVerif.Lemmas.BpAsb
 import DtnVerif.Generated.Facts
 namespace DtnVerif
 namespace Props
@@ -157,6 +158,69 @@ example : wfRfcEids exD = true := by decide +kernel
 example : decodeBundle exD.enc = some exD := C02_roundtrip_rfc exD (by decide +kernel)
 example : wfRfcEids exA = true := by decide +kernel
 
+/-! ### Any number of blocks (the outer array is indefinite: no count is ever encoded) -/
+
+/-- `n` extension blocks (type 192, numbers 2 …) followed by the payload block -/
+def manyBlocks (n : Nat) : Bundle :=
+  { primary := { dest := .dtn (ascii "//dst/svc"), src := .ipn [1, 2], ts := ⟨1, 1⟩, lifetime := 1000 },
+    blocks := (List.range n).map (fun i => { typeCode := 192, blockNum := i + 2, btsd := some [UInt8.ofNat i] })
+              ++ [ { typeCode := 1, blockNum := 1, btsd := some (ascii "payload") } ] }
+
+/-- The encoding starts with the indefinite-array octet immediately followed by the primary block's
+    own array head (`88`…`8b`), whatever the number of blocks: the octet after `9f` never is an item
+    count. -/
+theorem C02_frame_no_count (b : Bundle) :
+    ∃ t, b.enc = 0x9f :: UInt8.ofNat (4 * 32 + b.primary.count) :: t ∧ 8 ≤ b.primary.count
+      ∧ b.primary.count ≤ 11 := by
+  have hc : 8 ≤ b.primary.count ∧ b.primary.count ≤ 11 := by
+    unfold Primary.count; split <;> split <;> omega
+  refine ⟨b.primary.fields ++ encBlocks b.blocks ++ [0xff], ?_, hc.1, hc.2⟩
+  have : encArrHead b.primary.count = [UInt8.ofNat (4 * 32 + b.primary.count)] := by
+    unfold encArrHead head; simp [show b.primary.count < 24 by omega]
+  simp [Bundle.enc, Primary.enc, this]
+
+/-- 24, 25 and 256 top-level items (primary + 23 / 24 / 255 canonical blocks): round trip and shape
+    are instances of the general theorems — the quantifier over `b.blocks` is unbounded. -/
+example : wfRfcEids (manyBlocks 22) = true ∧ wfRfcEids (manyBlocks 23) = true
+    ∧ wfRfcEids (manyBlocks 254) = true := by decide +kernel
+example : decodeBundle (manyBlocks 22).enc = some (manyBlocks 22) :=
+  C02_roundtrip_rfc _ (by decide +kernel)
+example : decodeBundle (manyBlocks 23).enc = some (manyBlocks 23) :=
+  C02_roundtrip_rfc _ (by decide +kernel)
+example : decodeBundle (manyBlocks 254).enc = some (manyBlocks 254) :=
+  C02_roundtrip_rfc _ (by decide +kernel)
+example : rfc9171Shape (manyBlocks 23).enc = true := C02_shape _ (by decide +kernel)
+example : ((manyBlocks 23).enc.take 2) = [0x9f, 0x88] := by decide +kernel
+
+/-! ### Security block payloads (types 11 / 12): the Abstract Security Block sequence -/
+
+/-- Round trip of the ASB codec for every well-formed value: any number of targets, parameters
+    present iff flag bit 0, and **any** result arrays — including empty ones (a target without
+    results decodes to the empty list, not to "no value"). -/
+theorem C02_asb_roundtrip (a : Asb) (h : wfAsb a = true) : decAsb a.enc = some a :=
+  decAsb_enc a h
+
+/-- … and in front of any following octets (the ASB items are self-delimiting). -/
+theorem C02_asb_prefix (a : Asb) (r : Bytes) (h : wfAsb a = true) :
+    decAsbPrefix (a.enc ++ r) = some (a, r) := decAsbPrefix_enc a r h
+
+/-- BCB with one target whose result array is empty (`results = [[]]`), and a mixed one -/
+def exAsb : Asb :=
+  { targets := [1], contextId := 3, flags := 1, source := .dtn (ascii "//n/"),
+    params := [(1, .uint 5), (2, .bstr (ascii "ab"))], results := [[]] }
+def exAsb2 : Asb :=
+  { targets := [1, 2, 24], contextId := 256, flags := 0, source := .ipn [1, 2],
+    results := [[], [(1, .bstr (ascii "xyz"))], []] }
+
+example : wfAsb exAsb = true ∧ wfAsb exAsb2 = true := by decide +kernel
+example : (decAsb exAsb.enc).map (·.results) = some [[]] := by
+  rw [C02_asb_roundtrip exAsb (by decide +kernel)]; rfl
+example : toHex exAsb.enc = "810103018201642f2f6e2f8282010582024261628180" := by decide +kernel
+/-- an empty result array is distinguishable from an absent one on the wire and after decoding -/
+example : exAsb.enc ≠ ({ exAsb with results := [] } : Asb).enc
+    ∧ decAsb ({ exAsb with results := [] } : Asb).enc = some { exAsb with results := [] } := by
+  decide +kernel
+
 /-! ### Facts of the source the model relies on -/
 
 /-- Field order, field kinds and conditions of the classes the model mirrors, the enum values and
@@ -183,6 +247,15 @@ theorem C02_facts :
     ∧ Facts.layouts.lookup "blocks.BundleAgeBlock" = some [("UintField", "age", "")]
     ∧ Facts.layouts.lookup "blocks.HopCountBlock" = some [
       ("UintField", "limit", ""), ("UintField", "count", "")]
+    ∧ Facts.layouts.lookup "bpsecenc.AbstractSecurityBlock" = some [
+      ("FieldListField", "targets", "ArrayWrapField fld=UintField"), ("UintField", "context_id", ""),
+      ("FlagsField", "context_flags", ""), ("EidField", "source", ""),
+      ("PacketListField", "parameters", "if(lambda block: block.getfieldval('context_flags') & AbstractSecurityBlock.Flag.PARAMETERS_PRESENT) ArrayWrapField cls=TypeValuePair"),
+      ("PacketListField", "results", "ArrayWrapField cls=TargetResultList")]
+    ∧ Facts.layouts.lookup "bpsecenc.TargetResultList" = some [
+      ("PacketListField", "results", "cls=TypeValuePair")]
+    ∧ Facts.layouts.lookup "bpsecenc.TypeValuePair" = some [
+      ("UintField", "type_code", ""), ("CborField", "value", "")]
     ∧ (Facts.binds.filter (fun b => b.1 == "CanonicalBlock")).map (fun b => (b.2.1, b.2.2.2)) = [
       ("PreviousNodeBlock", 6), ("BundleAgeBlock", 7), ("HopCountBlock", 10),
       ("BlockIntegrityBlock", 11), ("BlockConfidentialityBlock", 12)]
